@@ -12,7 +12,8 @@ EXTENDS JsonReader, Json, IOUtils
 VARIABLE l
 Feed == ndJsonDeserialize(IOEnv.FEED)
 
-Opt(ev) == [comments |-> ev.o.comments, nan |-> ev.o.nan, inf |-> ev.o.inf, unicode |-> ev.o.unicode]
+Opt(ev) == [comments |-> ev.o.comments, nan |-> ev.o.nan, inf |-> ev.o.inf, unicode |-> ev.o.unicode,
+            maxstr |-> IF "maxstr" \in DOMAIN ev.o THEN ev.o.maxstr ELSE 2000000000]
 
 \* successive calls on one stream: each call starts where the previous one stopped
 \* (with the same filter at every call: what a filter discards is consumed all the same)
